@@ -50,6 +50,22 @@ func TargetOf(a *AccountInfo, byKey bool) Target {
 	return Target{Account: a.Path(), PubKey: a.PubKey, ByKey: byKey}
 }
 
+// TargetPadded addresses the account by its public key followed by pad extra bytes (pad > 0 and
+// byKey only); Dirk resolves accounts from the first 48 bytes of the field.
+func TargetPadded(a *AccountInfo, byKey bool, pad int) Target {
+	t := TargetOf(a, byKey)
+	if byKey && pad > 0 {
+		k := make([]byte, len(a.PubKey)+pad)
+		copy(k, a.PubKey)
+		for i := len(a.PubKey); i < len(k); i++ {
+			k[i] = byte(0x5a + i)
+		}
+		t.PubKey = k
+	}
+
+	return t
+}
+
 func (t Target) svc() (string, []byte) {
 	if t.ByKey {
 		return "", t.PubKey
